@@ -75,18 +75,36 @@ def deliver(mode, ignored):
     return True
 
 
-def build_pair(E, diffs):
-    """A and B; diffs: dict category -> variant (0 = no difference)."""
-    ctx = G.Ctx(E, True, sym=("ec", "md"))
-    code = G.mk_cell(ctx, dict(type="code", src="A", outputs=["stream", "result_md"], md=1), "b0", idx=0)
+def build_pair(E, diffs, shape=0, sym=("ec", "md")):
+    """A and B; diffs: dict category -> variant (0 = no difference).
+    shape 0: code cell + markdown cell; shape 1: the code cell's source is
+    EMPTY in A (the empty last cell one later types into); shape 2: a second
+    code cell with outputs of its own between the two (cells of one type that
+    can exchange ids; output differences then touch both code cells)."""
+    ctx = G.Ctx(E, True, sym=sym)
+    fam = "E" if shape == 1 else "A"
+    code = G.mk_cell(ctx, dict(type="code", src=fam, outputs=["stream", "result_md"], md=1), "b0", idx=0)
     md = G.mk_cell(ctx, dict(type="markdown", src="M", md=1, att=True), "b1", idx=1)
-    A = G.mk_notebook(ctx, [code, md], "b")
+    extra = x2 = None
+    if shape == 2:
+        extra = G.mk_cell(ctx, dict(type="code", src="B", outputs=["stream"], md=1), "b2", idx=2)
+        x2 = dict(extra)
+    A = G.mk_notebook(ctx, [code, extra, md] if extra is not None else [code, md], "b")
     c2, m2 = dict(code), dict(md)
     nbmd = dict(A["metadata"])
     if diffs["sources"]:
-        c2["source"] = G.SRC["A"][1]
+        c2["source"] = G.SRC[fam][1]
         if diffs["sources"] == 2:
             m2["source"] = G.SRC["M"][1]
+    if x2 is not None and diffs["outputs"]:
+        xo = list(extra["outputs"])
+        if diffs["outputs"] == 1:
+            o = dict(xo[0])
+            o["text"] = G.STREAM[1]
+            xo[0] = o
+        else:
+            xo = xo + [G.mk_output(ctx, "stderr", "x")]
+        x2["outputs"] = xo
     if diffs["outputs"]:
         outs = list(code["outputs"])
         if diffs["outputs"] == 1:
@@ -117,7 +135,9 @@ def build_pair(E, diffs):
         mm = dict(md["metadata"])
         mm["tags"] = ["x"]
         m2["metadata"] = mm
-    if diffs["id"] == 3:
+    if diffs["id"] == 3 and x2 is not None:
+        c2["id"], x2["id"] = extra["id"], code["id"]   # the two code cells exchange their ids
+    elif diffs["id"] == 3:
         c2["id"], m2["id"] = md["id"], code["id"]      # the two cells exchange their ids
     elif diffs["id"]:
         c2["id"] = "changed-id-0"
@@ -132,7 +152,7 @@ def build_pair(E, diffs):
         outs[1] = o
         c2["outputs"] = outs
     B = dict(A)
-    B["cells"] = [c2, m2]
+    B["cells"] = [c2, x2, m2] if x2 is not None else [c2, m2]
     B["metadata"] = nbmd
     return G.finalize(A), G.finalize(B)
 
@@ -140,20 +160,31 @@ def build_pair(E, diffs):
 NVAR = {"sources": 3, "outputs": 3, "attachments": 4, "metadata": 5, "id": 4, "details": 3}
 
 
-def make_ignore(mode, lo, hi, full=False, props=("C14",), known=()):
+# difference variants explored on the special shapes (all others: no difference)
+SHAPE_VARIANTS = {1: {"sources": (0, 1), "outputs": (0, 1), "metadata": (0, 2), "details": (0, 1)},
+                  2: {"sources": (0, 1), "outputs": (0, 1, 2), "metadata": (0, 3), "details": (0, 1, 2), "id": (0, 3)}}
+
+
+def make_ignore(mode, lo, hi, full=False, shape=0, props=("C14",), known=()):
     def h(E):
         from nbdime.diffing.notebooks import diff_notebooks, reset_notebook_differ
         mask = lo + E.choice("ignored", hi - lo)
         ignored = [c for i, c in enumerate(CATEGORIES) if mask >> i & 1]
         diffs = {}
         for c in CATEGORIES:
-            if full or c in ("metadata", "details", "attachments"):
+            if shape:
+                vs = SHAPE_VARIANTS[shape].get(c, (0,))
+                diffs[c] = vs[E.choice("d_" + c, len(vs))] if len(vs) > 1 else 0
+            elif full or c in ("metadata", "details", "attachments"):
                 diffs[c] = E.choice("d_" + c, NVAR[c])
             else:
                 on = E.choice("d_" + c, 2)
                 # variant rotates with the ignore mask so that all variants are met
                 diffs[c] = 0 if not on else 1 + (mask + CATEGORIES.index(c)) % (NVAR[c] - 1)
-        A, B = build_pair(E, diffs)
+        A, B = build_pair(E, diffs, shape)
+        E.goal("empty-base-source-gets-text", shape == 1 and bool(diffs["sources"]) and "sources" in ignored)
+        E.goal("code-cells-exchange-ids-and-differ-in-ignored-outputs",
+               shape == 2 and diffs["id"] == 3 and bool(diffs["outputs"]) and "id" in ignored and "outputs" in ignored)
         try:
             if not deliver(mode, ignored):
                 E.goal("mode-cannot-express-subset")
@@ -167,7 +198,7 @@ def make_ignore(mode, lo, hi, full=False, props=("C14",), known=()):
         E.nontrivial(bool(ignored) and any(diffs.values()))
         E.goal("nonempty-diff-with-ignores", bool(ignored) and len(d) > 0)
         E.goal("empty-diff-with-differences", len(d) == 0 and any(diffs.values()))
-        ctxinfo = "mode %s ignored %r differences %r" % (mode, ignored, {k: v for k, v in diffs.items() if v})
+        ctxinfo = "shape %d mode %s ignored %r differences %r" % (shape, mode, ignored, {k: v for k, v in diffs.items() if v})
         bad = hidden_entries(d, ignored)
         kbad = []
         for b in bad:
@@ -290,6 +321,69 @@ def make_ignore_keys(lo, hi, props=("C14",), known=()):
     return h, dict(reset=common.nbdime_reset)
 
 
+def make_ignore_multi(props=("C14",), known=()):
+    """One `nbdiff <flags> REFA REFB` run over SEVERAL changed notebooks (git
+    revisions; changed_notebooks stubbed to yield two pairs as streams): the
+    ignore flags must still be in force for the later notebooks of the run.
+    The JSON diff written with --out is that of the last pair.  Concrete
+    leaves (the notebooks are serialised for the command)."""
+    def h(E):
+        import io
+        import json
+        import os
+        import tempfile
+        import nbdime.args as nargs
+        from nbdime import nbdiffapp
+        from nbdime.diffing.notebooks import reset_notebook_differ
+        mask = E.choice("ignored", 64)
+        ignored = [c for i, c in enumerate(CATEGORIES) if mask >> i & 1]
+        positive = E.choice("positive-flags", 2)
+        if positive:
+            keep = [c for c in CATEGORIES if c not in ignored]
+            if not keep:
+                return
+            flags = ["-" + FLAG[c] for c in keep]
+        else:
+            if not ignored:
+                return
+            flags = ["-" + FLAG[c].upper() for c in CATEGORIES if c in ignored]
+        npairs = 2 + E.choice("pairs", 2)
+        full = {"sources": 1, "outputs": 1, "attachments": 1, "metadata": 2, "id": 1, "details": 1}
+        A, B = build_pair(E, full, 0, sym=())
+        fd, out = tempfile.mkstemp(suffix=".json", prefix="vfc14")
+        os.close(fd)
+
+        def stream(nb, name):
+            f = io.StringIO(json.dumps(nb))
+            f.name = name
+            return f
+        saved = (nargs.get_defaults_for_argparse, nbdiffapp.is_gitref, nargs.is_gitref, nbdiffapp.changed_notebooks)
+        nargs.get_defaults_for_argparse = lambda entrypoint: {}
+        nbdiffapp.is_gitref = nargs.is_gitref = lambda c: c in ("REFA", "REFB")
+        nbdiffapp.changed_notebooks = lambda base, remote, paths=None: iter(
+            [(stream(A, "n%d.ipynb (REFA)" % i), stream(B, "n%d.ipynb (REFB)" % i)) for i in range(npairs)])
+        try:
+            try:
+                a = nbdiffapp._build_arg_parser().parse_args(flags + ["--out", out, "REFA", "REFB"])
+                status = nbdiffapp.main_diff(a)
+                with open(out) as f:
+                    d = json.load(f)
+            except Exception as ex:  # noqa
+                E.fail("nbdiff-run-raised", "%s: %s (flags %r)" % (type(ex).__name__, str(ex)[:160], flags))
+                return
+        finally:
+            nargs.get_defaults_for_argparse, nbdiffapp.is_gitref, nargs.is_gitref, nbdiffapp.changed_notebooks = saved
+            reset_notebook_differ()
+            os.unlink(out)
+        E.nontrivial(True)
+        E.goal("several-notebooks-in-one-nbdiff-run")
+        info = "nbdiff %s REFA REFB over %d changed notebooks: diff of the last one" % (" ".join(flags), npairs)
+        E.check("nbdiff-run-succeeds", status == 0, info=info)
+        bad = hidden_entries(d, ignored)
+        E.check("later-notebooks-of-one-run-diffed-with-the-ignore-flags", not bad, info="%s reports %r" % (info, bad[:3]))
+    return h, dict(reset=common.nbdime_reset)
+
+
 def shards(tier, props, known):
     kw = dict(props=tuple(props), known=tuple(known))
     out = []
@@ -298,6 +392,11 @@ def shards(tier, props, known):
         for lo in range(0, 64, step):
             out.append(("make_ignore", "ign-%s-%d" % (mode, lo),
                         dict(mode=mode, lo=lo, hi=lo + step, full=(tier == "thorough" and mode in ("targets", "negative-flags")), **kw)))
+    for shape in (1, 2):
+        for mode in (("targets", "mapping") if tier == "quick" else MODES):
+            for lo in range(0, 64, 16):
+                out.append(("make_ignore", "ign-shape%d-%s-%d" % (shape, mode, lo), dict(mode=mode, lo=lo, hi=lo + 16, shape=shape, **kw)))
+    out.append(("make_ignore_multi", "ign-multi", dict(**kw)))
     for lo in range(0, 32, 8):
         out.append(("make_ignore_keys", "ignkeys-%d" % lo, dict(lo=lo, hi=lo + 8, **kw)))
     return out
